@@ -11,7 +11,7 @@ import (
 )
 
 func init() {
-	Register(&Scenario{Prop: "C05", Name: "crash-prefixes", Run: scenC05, Weight: 3,
+	Register(&Scenario{Prop: "C05", Name: "crash-prefixes", Run: scenC05, SoftParks: true, Weight: 3,
 		Rule: "node T with 0-2 feeder peers, one database (type drawn per run); 3-10 (thorough 3-24) writes on T (single, or bursts of 2-3 concurrent writers released one persistence step at a time while replication goes on) and on feeders replicated into T under reorder/dup/delay, optionally a clean restart of T mid-history; every acknowledgement (write call returned; EventReplicated received) is stamped with T's persistence-effect count; then EVERY prefix of T's effect log (block puts, cache puts, keystore puts) is materialised as a durable image and recovered in isolation (offline block store) by NewOrbitDB + Open + Load(-1); oracle per prefix: recovered log contains every entry acknowledged at or before the prefix, only entries really written, is closed under next, visible state equals LWW replay of the recovered log, identity equals the pre-crash one once the first NewOrbitDB had returned, and a new write succeeds; one evaluation = one history with all its prefixes; non-trivial = >=1 prefix strictly between two acknowledgements and (with feeders) >=1 replicated batch acknowledged"})
 }
 
